@@ -452,7 +452,7 @@ def main(argv):
     ap.add_argument("--replay", default=None)
     a = ap.parse_args(argv)
     seed = int(os.environ.get("VERIF_SEED", "0"))
-    from . import props  # noqa: F401  (registers the checks)
+    from . import props, props2  # noqa: F401  (registers the checks)
     if a.pid not in REGISTRY:
         print("unknown property %s" % a.pid)
         return 2
@@ -469,6 +469,8 @@ def main(argv):
         os._exit(2)
     signal.signal(signal.SIGALRM, on_alarm)
     signal.alarm(limit)
+    if a.replay:
+        a.replay = os.path.abspath(a.replay)
     try:
         return chk.run(a.replay)
     except Exception:
